@@ -162,7 +162,8 @@ class C06Yields(Monitor):
         season = post.season
         if post.gs:
             crop = season_crop(ctx, season)
-            et0 = float(m._weather[t][3])
+            from ..driver import configured_weather
+            et0 = configured_weather(ctx, pre.date)[3]   # reference ET of the user's record for this date
             tr = float(f[FX["Tr"]])
             b = float(g[GX["biomass"]])
             dap = float(g[GX["dap"]])
